@@ -7,6 +7,14 @@ V = "/verif"
 ALL = ["C%02d" % i for i in range(1, 21)]
 
 CHECKS = {
+ "C08": dict(level="model_checking",
+   text="Explicit exploration of call histories: every sequence up to the bound over a 13-call pool chosen to collide on package-level state, each history executed in its own fresh process; every position must return what the same call returns when made first in a fresh process, and solo calls are repeated across processes (Encode determinism). Behavioural states (vectors of one-step futures) are counted: a pure implementation has exactly one.",
+   note="Fresh-process baseline means no in-process reset has to be trusted. The package-level distance accumulator (listed finding) is shadowed and attributed exactly. Map-iteration nondeterminism is observed through repeated fresh-process runs, not enumerated.",
+   technique="explicit-state exploration of call histories with a fresh-process differential oracle", ref="3 C08"),
+ "C09": dict(level="model_checking",
+   text="Stateless schedule exploration on the real code under a cooperative scheduler: scheduling points at every Read/Write on harness-owned readers/writers (reads cut at record boundaries), all ordered pairs of pool calls with iterative preemption bounding, plus 3-thread and 2-calls-per-thread scenarios; each thread must return its solo result under every schedule. A separate free-running pass of the same bodies under the Go race detector classifies every report by function signature.",
+   note="Interleavings are sequentially consistent and at Read/Write granularity; finer interleavings are only sampled by the race-detector pass. Preemption bound completed: 2 (quick) / 4 (thorough) for pairs.",
+   technique="stateless model checking with a controlled scheduler and preemption bounding + separate race-detector pass", ref="3 C09"),
  "C05": dict(level="exploration",
    text="Bounded exhaustive enumeration of Files built through the public API (17 file types x every container member x field subsets incl. union-definition mixes x boundary values x byte order x header form); every output is parsed by an independent strict FIT grammar parser and every wire value compared with a reference encoding of the Go value; File header/CRC fields checked after the call.",
    note="Reference encoder and parser live in harness/fitmodel and harness/props/filegen.go. In-domain Files start from the all-invalid file_id (NewFile leaves Go zero values, which are outside the representable domain).",
